@@ -19,6 +19,48 @@ CHECKS = {
         note="Trusted: CPython ast, Fraction arithmetic, the checker. Assumed: frames on the step lattice; time2step exact there (C13).",
         technique="static analysis: inductive invariant checked by abstract interpretation of each path (rational normal forms) + dominance of file selection over reads + typestate SORTED",
     ),
+    "C05": dict(
+        level="proof",
+        text="Induction step of the State invariant (equal lengths, pid strictly increasing, max(pid) < npid, npid monotone) for every operation in ladim/ that can touch the state: writers of pid/npid enumerated over all modules; State.append evaluated abstractly and its post-state compared with pid ++ arange(npid, npid+n), npid+n, var ++ n values; compactify filters exactly the instance variables with one pre-bound alive mask; every other store is an element-wise function of the current array; output applies no permutation. All obligations are enumerated and discharged.",
+        note="Trusted: numpy semantics of concatenate / boolean indexing / broadcast_to; CPython ast; the checker. Assumed: plug-in IBMs use the State API.",
+        technique="static analysis: who-may-write enumeration over the resolved program + abstract post-state of append/compactify (inductive invariant)",
+    ),
+    "C06": dict(
+        level="other",
+        text="Decides the indexing discipline of the output, not value equality: Output.write is evaluated abstractly per layout and per outcome of the file-finished tests; every netCDF store (variable, index, value) and the post-state of the four counters are compared with the contiguous-ragged-array layout; dense writes must mask both sides with alive; particle-variable extent is the release counter; time value/units agree; reader and documentation formulas agree with the writer.",
+        note="Trusted: netCDF4 slice assignment on unlimited dimensions; CPython ast; the checker. Not decided: encoding precision, library behaviour.",
+        technique="static analysis: abstract interpretation of Output.write (symbolic cursors) + table agreement writer/reader/doc snippet",
+    ),
+    "C09": dict(
+        level="proof",
+        text="Inductive invariant alive => in grid and at sea: Tracker.update is evaluated abstractly and the stored position, alive and active flags are case-analysed exhaustively over (candidate in grid, particle active, land-test outcomes); the land mask is never indexed with a raw out-of-grid candidate; alive is only cleared; writers of alive and X/Y are enumerated over ladim/; ingrid is a strict box inside the velocity domain, atsea the mask of the particle's own cell.",
+        note="Trusted: numpy masked assignment is element-wise; CPython ast; the checker. Assumed: release positions valid; plug-in IBMs only clear alive.",
+        technique="static analysis: abstract interpretation with boolean case analysis of masked stores (typestate kill -> restore -> land test -> store) + writer enumeration",
+    ),
+    "C12": dict(
+        level="other",
+        text="Decides algebraic clauses: every stretching curve takes -1 at S=-1 and 0 at S=0, every transform maps the end points to -h and 0 (opaque sinh/cosh/tanh/exp atoms with odd/even/zero rewrites); sdepth and s_stretch use the same unstretched coordinate; the level lookup interpolates -Z linearly between bracketing levels and holds the end levels; rho/w staggers are wired consistently; unknown options raise. Monotonicity/interleaving of the curves between the end points is not decided (seeded change C12-vs2-blend-swapped is a documented miss).",
+        note="Trusted: left-bisect semantics of searchsorted; CPython ast; the checker. Assumed: at least two levels.",
+        technique="static analysis: abstract interpretation (rational normal forms with elementary-function atoms) + branch-region analysis of the level lookup",
+    ),
+    "C14": dict(
+        level="other",
+        text="Decides structural clauses of independence: per-particle caches of the forcing object are not used across a length-changing operation on any path of Model.update / the warm block (one known finding); kernels index per-particle arrays by the loop variable only; no cross-particle reduction on the numeric update path; the gridded fields evolve independently of the particle list; clock, glob, RNG and set-iteration sites are enumerated and confined; per-step modules read the clock through step/dt only. Bit-for-bit equality of paired runs is not decided.",
+        note="Trusted: role-typed call resolution; CPython ast. Known finding F8 (compactify between force.update and tracker.update) is listed in known_findings.json.",
+        technique="static analysis: effect summaries (LEN-CHANGE / CACHE-DEF / CACHE-USE) over the resolved call graph + per-index independence lint + control-dependence of field stores",
+    ),
+    "C16": dict(
+        level="other",
+        text="Decides that every conversion uses matching frames and that a fixed point of bilin_inv solves the interpolation equations: sample2D weights are tensor-product identities (with mask renormalisation, undefined and outside substitutes), Jacobian entries equal symbolic derivatives of the bilinear estimate, the Newton update solves J*d = residual, xy2ll/ll2xy use the offsets and axis order of the slices lon/lat are cut with, numeric optionals are tested with `is None`. Convergence of the iteration is not decided.",
+        note="Trusted: numpy truncation/astype semantics; polynomial differentiation in the normal-form domain; CPython ast; the checker.",
+        technique="static analysis: abstract interpretation (rational normal forms, symbolic differentiation) + Engler-style optional-discipline contradiction rule",
+    ),
+    "C20": dict(
+        level="other",
+        text="Decides presence, operands, termination and placement of the start-up guards: for each fault class of the property a guard is located by the operands of its condition, must leave by raise on all paths, must be reachable from configure or a role constructor while Output.write is reachable only from Model.update, and no handler may swallow the stop. Faults outside the listed classes are not decided.",
+        note="Trusted: library calls raise on missing/unreadable files; SystemExit propagates out of main; CPython ast; resolved call graph.",
+        technique="static analysis: fault-class table matched on condition operands + must-terminate path check + call-graph reachability + handler lint",
+    ),
     "C10": dict(
         level="other",
         text="Decides time-mirror symmetry of each direction-dependent computation: TimeKeeper methods evaluated abstractly with time_reversal True equal the T-image (instants and velocities negated) of the forward evaluation; every comparison between instants in the release module sits in a time_reversal conditional with mirrored arms; tick spacing, output period and both velocity components change sign; sorted steps, file selection by identity and release-sequence alignment are reused. Equality of two complete runs is not decided.",
